@@ -6,8 +6,8 @@ PROP = {
     "n": {"quick": 2000, "thorough": 30000},
     "theorems": ["inv_preserved", "abs_store", "abs_load", "reject_bad_width", "eq_refl_clone", "eq_implies_same_loads",
                  "perm_range", "perm_default_backing", "store_keeps_perms", "store_clone_indep", "cells_store_refines",
-                 "history_loads", "history_perms", "expr_store_sim", "expr_load_sim", "expr_abs_load"],
-    "rule": "three histories in four over paged::Memory<il::Constant>, one in four over paged::Memory<il::Expression> (stored values = small expression trees with constant leaves; loaded expressions compared after executor::eval); histories of 1-60 operations (store 40%, load 35%, clone 5%, new 1%, set_permissions 6%, permissions 8%, eq 5%) over three "
+                 "history_loads", "history_perms", "expr_store_sim", "expr_load_sim", "expr_abs_load", "expr_eval_is_empty_valuation"],
+    "rule": "three histories in four over paged::Memory<il::Constant>, one in four over paged::Memory<il::Expression> (stored values = small expression trees with constant and scalar leaves; for every load both the returned TREE and its value under the history's valuation of the scalars are compared); histories of 1-60 operations (store 40%, load 35%, clone 5%, new 1%, set_permissions 6%, permissions 8%, eq 5%) over three "
             "handles, one xoshiro256** stream per (seed,index); widths {8,16,24,32,64,128,136} (+ a malformed "
             "stream with 0/7/12 bits in 1/8 of the histories); addresses within +-9 of 1-3 bases (page boundaries 1024k, 0, 2^64-32, last page) "
             "or within +-16 of an earlier address (60%); backing in half of the histories; both endiannesses. "
@@ -19,7 +19,7 @@ PROP = {
                     "judged; ranges that wrap 2^64 are outside the oracle, the tie still covers them)",
                     "values and loads narrower than 2^63 bits; set_permissions ranges shorter than 2^63 bytes",
                     "backing sections do not reach 2^64 and hand out u8 bytes"],
-    "partial": ["V = il::Expression: simulation theorems about the denotation (eval) of expressions + a differential stream compared after evaluation; the structure of the returned expression trees is tied only through the model replay (eval of model result = eval of observed result)",
+    "partial": ["V = il::Expression: the theorems are about the denotation of the returned expressions under any valuation of their scalars; the exact trees are tied differentially (model tree = observed tree), not characterised by a theorem",
                 "clone independence is Rust ownership (trusted); the Coq statement is immediate in a pure model",
                 "loads / set_permissions whose range wraps 2^64 still panic in an overflow-checked build (outside the property)"],
     "level_text": "Unbounded Coq theorems for the Gallina transcription of paged::Memory<il::Constant> (pages, cells/backrefs, three-phase store, "
